@@ -111,6 +111,25 @@ theorem panic_iff (pw salt : Bytes) (rounds keyLen : Int) (hne : key pw salt rou
       ((keyLen.toNat + 31) / 32) ((keyLen.toNat + 31) / 32) (Array.replicate ((keyLen.toNat + 31) / 32 * 32) 0)
     simp [e1]
 
+/-- Key succeeds on every documented-valid argument tuple (so `key_len` / `key_layout` are not vacuous) -/
+theorem key_ok (pw salt : Bytes) (rounds keyLen : Int) (h1 : 1 ≤ rounds) (h2 : pw.length ≠ 0)
+    (h3 : salt.length ≠ 0) (h4 : salt.length ≤ 2 ^ 20) (h5 : keyLen ≤ 1024) (h6 : 0 ≤ keyLen) :
+    ∃ k, key pw salt rounds keyLen = .ok k := by
+  have hne : key pw salt rounds keyLen ≠ .err := by
+    intro h
+    have := (errors_iff pw salt rounds keyLen).mp h
+    omega
+  cases hk : key pw salt rounds keyLen with
+  | err => exact absurd hk hne
+  | panic =>
+    have := (panic_iff pw salt rounds keyLen hne).mp hk
+    omega
+  | ok k => exact ⟨k, rfl⟩
+
+example : ∃ k, key [112] [115] 1 33 = .ok k := key_ok _ _ _ _ (by decide) (by decide) (by decide) (by decide) (by decide) (by decide)
+example : key [112] [115] 1 (-1) = .panic :=
+  (panic_iff _ _ _ _ (fun h => by have := (errors_iff _ _ _ _).mp h; simp at this)).mpr (by decide)
+
 /-- a returned key has exactly keyLen bytes -/
 theorem key_len (pw salt : Bytes) (rounds keyLen : Int) (k : Bytes)
     (h : key pw salt rounds keyLen = .ok k) : (k.length : Int) = keyLen := by
